@@ -36,6 +36,19 @@ Theorem C17_value_is_last_completed : forall evs,
 Proof. exact value_is_last_completed. Qed.
 Print Assumptions C17_value_is_last_completed.
 
+(** a server action restored from the URL of a failed no-JS form post ([run_from v0]: created with
+    the decoded error as its value) runs exactly like a fresh action — so every theorem here about
+    pending / version / input / the write log applies to it — and reports the restored value until
+    its first completion or clear *)
+Theorem C17_restored_value_until_first_write : forall v0 evs,
+  let s := run_from v0 true evs in
+  let s' := run true evs in
+  in_flight s = in_flight s' /\ input s = input s' /\ version s = version s' /\
+  tasks s = tasks s' /\ wlog s = wlog s' /\
+  value s = match wlog s' with [] => v0 | l => last_value l end.
+Proof. exact restored_value_until_first_write. Qed.
+Print Assumptions C17_restored_value_until_first_write.
+
 (** input is cleared once nothing is pending *)
 Theorem C17_input_cleared_when_idle : forall evs,
   let s := run true evs in pending s = false -> input s = None.
